@@ -31,11 +31,20 @@ Methods == {[service |-> "admin", method |-> m, stream |-> m \in AdminStreamMeth
            \cup {[service |-> "workflow", method |-> m, stream |-> FALSE, hasns |-> m \in WorkflowNsRequests] : m \in WorkflowMethods}
 
 \* quick: C15 method matrix with a fixed name; C16/C13 name matrix on the methods that have a namespace field
-MethodCases == {[side |-> s, m |-> m, policy |-> p, mapping |-> TRUE, bypass |-> b, name |-> "ns-remote-ok"] :
-                  s \in Sides, m \in Methods, p \in {"none", "methods"}, b \in BOOLEAN}
-NameCases == {[side |-> s, m |-> m, policy |-> p, mapping |-> mp, bypass |-> b, name |-> n] :
+\* "whichever transport": the remote-facing side of the proxy is a TCP server or a mux session
+Transports == {"tcp", "mux"}
+MethodCases == {[side |-> s, m |-> m, policy |-> p, mapping |-> TRUE, bypass |-> b, name |-> "ns-remote-ok", transport |-> tr] :
+                  s \in Sides, m \in Methods, p \in {"none", "methods"}, b \in BOOLEAN, tr \in Transports}
+NameCases == {[side |-> s, m |-> m, policy |-> p, mapping |-> mp, bypass |-> b, name |-> n, transport |-> "tcp"] :
                   s \in Sides, m \in {x \in Methods : x.hasns /\ ~x.stream}, p \in {"none", "namespaces", "both"}, mp \in BOOLEAN,
                   b \in BOOLEAN, n \in Names}
+
+(* ---------------- start-up: mapping lists must be one-to-one (C13) ------- *)
+MapNames == {"a", "b", "c"}
+Pairs == [local : MapNames, remote : MapNames]
+MappingLists == {<<p>> : p \in Pairs} \cup {<<p, q>> : p \in Pairs, q \in Pairs} \cup
+                {<<p, q, r>> : p \in {x \in Pairs : x.local = "a"}, q \in Pairs, r \in Pairs}
+OneToOne(ls) == \A i, j \in 1..Len(ls) : i # j => (ls[i].local # ls[j].local /\ ls[i].remote # ls[j].remote)
 
 (* ---------------- the outcome the design requires ------------------------ *)
 \* the name the next hop sees in the request
@@ -53,4 +62,15 @@ Denied(c) ==
 RespName(c) == IF ~c.mapping \/ c.bypass THEN SeenName(c)
                ELSE IF c.side = "inbound" THEN ToRemote(SeenName(c)) ELSE ToLocal(SeenName(c))
 
+(* ---------------- search-attribute direction (C14) ------------------------ *)
+\* mapping: local sa-l <-> remote sa-r, identity entry sa-same, sa-free unmapped. Each cluster speaks its own names; whatever
+\* leaves the proxy is in the vocabulary of the cluster it goes to (same direction rules as namespaces), values untouched.
+SaCases == [side : {"inbound", "outbound"}, transport : {"tcp", "mux"}, leg : {"req", "resp"}]
+\* inbound: the remote cluster calls, the local one serves
+SaReceiver(c) == IF (c.side = "inbound") = (c.leg = "req") THEN "local" ELSE "remote"
+SaSenderKey(c) == IF SaReceiver(c) = "local" THEN "sa-r" ELSE "sa-l"
+SaReceiverKey(c) == IF SaReceiver(c) = "local" THEN "sa-l" ELSE "sa-r"
+KV(k, from) == k \o "=\"v-" \o from \o "\""
+\* sorted as the harness sorts them
+SaWant(c) == << KV("sa-free", "sa-free"), KV(SaReceiverKey(c), SaSenderKey(c)), KV("sa-same", "sa-same") >>
 =============================================================================
